@@ -1,11 +1,19 @@
 import NbioVerif.Properties.C03
 import NbioVerif.Lemmas.SrcBridgeConn
 #print axioms Life.li_run
+#print axioms Life.li_runAll
+#print axioms Life.runAll_run
 #print axioms Life.c03_close_once
+#print axioms Life.c03_raced_only_addconn
+#print axioms Life.c03_raced_open_without_close
+#print axioms Life.c03_raced_close_before_open
 #print axioms Life.c03_close_after_open
+#print axioms Life.c03_wg
 #print axioms Life.c03_first_cause
 #print axioms Life.c03_closed_ops
-#print axioms Life.c03_closed_ops_run
-#print axioms Life.c03_close_idempotent
+#print axioms Life.c03_fd_quiet
+#print axioms Life.c03_table
+#print axioms Life.kres_stable
 #print axioms Life.c03_dial
+#print axioms Life.c03_dial_timer
 #print axioms ConnFull.src_masks_wellformed
